@@ -401,6 +401,22 @@ def c10_corpus_jobs():
     return jobs
 
 
+def upscale_jobs(tier):
+    """x2 upscaling operators between convolutions (netgen family upscale_chain), compiled with the Performance strategy and
+    arenas between "nothing fits" and "everything fits", so that the NEAREST-upscaling operator is cascaded and striped by
+    propose_schedule_striping (its stripe height comes from its consumer and has to be even)"""
+    import compiles
+    rng = random.Random("c10-upscale/%s" % vlib.seed())
+    jobs = []
+    accs = compiles.U55 + compiles.U65
+    for i in range(16 if tier == "quick" else 300):
+        arena = rng.choice([30000, 40000, 50000, 60000, 70000, 80000, 100000, 120000, 160000, 200000])
+        jobs.append({"family": "upscale_chain", "seed": "c10up-%d-%d" % (vlib.seed(), i),
+                     "args": ["--accelerator-config", "ethos-u55-128" if i % 2 == 0 else accs[i % len(accs)], "--arena-cache-size", str(arena),
+                              "--optimise", "Performance" if i % 4 else "Size"], "capture": True})
+    return jobs
+
+
 # ======================================================================================== case generators
 def geometry_cases(rng, tier):
     """(H, k, d, s, pad, t, b) along one axis, exhaustive small then random large"""
@@ -1046,7 +1062,7 @@ def _run(tier, res, b):
     lap('generator')
     # ---------------------------------------------------------------- 8. D2: stripe groups of every captured stream
     import compiles
-    d2 = compiles.run_all(c10_corpus_jobs() + compiles.corpus_jobs() +
+    d2 = compiles.run_all(c10_corpus_jobs() + compiles.corpus_jobs() + upscale_jobs(tier) +
                           compiles.plan(FAMS, 64 if tier == "quick" else 1600, vlib.seed(), tag="d2", capture=True))
     programs = passes_checked = stripes_checked = rolling_checked = 0
     vcases, vwant = [], []
@@ -1149,7 +1165,10 @@ def _run(tier, res, b):
                                      "ofm_box": ob, "ifm_box": cmd["ifm_box"], "hw_padding": pad, "kernel": kern, "op_padding": opad,
                                      "read_offset": roff, "read_shape": rshape, "ofm_index": mm[0], "tap": mm[1], "hardware_reads": mm[2],
                                      "operator_reads": mm[3]},
-                                    "compiled network %s pass %s axis %s: hardware reads %s, operator reads %s" % (r.get("net_name"), cmd["pass"], axis, mm[2], mm[3]))
+                                    "compiled network %s pass %s axis %s%s: stripe OFM [%d,%d) with IFM box [%d,%d), padding %d/%d: output %d tap %d makes the "
+                                    "hardware read %s, the operator reads %s" % (
+                                        r.get("net_name"), cmd["pass"], axis, " (x2 %s upscaling)" % api["ifm_upscale"].lower() if rmode else "",
+                                        ob["start"][ai], ob["end"][ai], cmd["ifm_box"]["start"][ai], cmd["ifm_box"]["end"][ai], p0, p1, mm[0], mm[1], mm[2], mm[3]))
                     chk = (kern, pad)
                 # rolling buffers: rows held per slot of every tensor stored in fewer rows than its shape
                 if ifm_t and len(ifm_t["storage_shape"]) == 4 and len(cmd["ifm_box"]["start"]) == 4 and cmd["ifm_shapes"] and \
